@@ -4,6 +4,7 @@ from __future__ import annotations
 from fractions import Fraction as F
 
 import numpy as np
+import sympy
 
 import core
 import ekf_h as eh
@@ -54,6 +55,9 @@ def one_update_against_oracle(ctx, d, ekf, sensor, key, pt, z, reading_obj, tag)
         ctx.fail(f"sensor-model-raises:{fk.exc_kind(e)}:{tag}", f"sensor_model raises {e!r}"[:300], case); return
     gx = fk.by_name(res.state)
     sc = max([abs(float(v)) for v in want["x"]] + [1.0])
+    if key not in ekf.innovations or key not in ekf.sensor_prediction_uncertainty:
+        ctx.fail(f"update-innovation:not-recorded:{tag}", "after the update the filter holds no innovation / innovation covariance for this sensor", case)
+        return
     y_rec = np.asarray(ekf.innovations[key], dtype=float)
     S_rec = np.asarray(ekf.sensor_prediction_uncertainty[key], dtype=float)
     if S_rec.shape != (m, m) or not eh.mat_close(S_rec, want["S"]):
@@ -84,10 +88,11 @@ def later_filters_and_own_readings(ctx):
             if which == 1:
                 pt["cal"] = {n: v + 3 for n, v in filters[0][1]["cal"].items()}
             try:
-                ekf = eh.compile_ekf(d, process, sensor, pt["cal"], ctx.rng, cse=(i % 2 == 0))
+                mp = {}
+                ekf = eh.compile_ekf(d, process, sensor, pt["cal"], ctx.rng, cse=(i % 2 == 0), maps=mp)
             except Exception as e:
                 ctx.fail(f"compile-ekf-raises:{fk.exc_kind(e)}", f"compile_ekf refuses a valid definition: {e!r}"[:300], {"def": d.describe()}); break
-            filters.append((ekf, pt, sensor))
+            filters.append((ekf, pt, sensor, {"maps": mp}))
             Lr = sorted(d.sensors[key])
             hx = eh.oracle_vals(d.sensors[key], Lr, eh.subs_map(d, pt))
             z = {r: F(h).limit_denominator(2 ** 20) + gen.dyadic(ctx.rng, -1, 1, 4) for r, h in zip(Lr, hx)}
@@ -95,21 +100,54 @@ def later_filters_and_own_readings(ctx):
                                       "second-filter-other-calibration" if which else "first-filter")
         if not filters:
             continue
+        # a third filter built from the SAME dict objects the first one was built from (one sensor table for a fleet), with its own
+        # calibration values
+        if filters and "maps" in filters[0][3]:
+            maps0 = filters[0][3]["maps"]
+            pt3 = gen.gen_point(ctx.rng, d)
+            pt3["cal"] = {n: v - 2 for n, v in filters[0][1]["cal"].items()}
+            try:
+                ekf3 = eh.compile_ekf(d, process, sensor0, pt3["cal"], ctx.rng, cse=(i % 2 == 0),
+                                      maps={"sensor_models": maps0["sensor_models"], "sensor_noises": maps0["sensor_noises"], "process_noise": maps0["process_noise"]})
+                Lr = sorted(d.sensors[key])
+                hx = eh.oracle_vals(d.sensors[key], Lr, eh.subs_map(d, pt3))
+                z = {r: F(h).limit_denominator(2 ** 20) + gen.dyadic(ctx.rng, -1, 1, 4) for r, h in zip(Lr, hx)}
+                one_update_against_oracle(ctx, d, ekf3, sensor0, key, pt3, z, ekf3.make_reading(key, **{r: float(v) for r, v in z.items()}),
+                                          "filter-from-the-same-dicts-other-calibration")
+            except Exception as e:
+                ctx.fail(f"compile-ekf-raises:{fk.exc_kind(e)}:same-dicts", f"a second filter from the same definition dicts raises {e!r}"[:300], {"def": d.describe()})
         if len(filters) == 2:
             # both filter objects are alive: the FIRST one still uses its own noises and keeps its own records
-            ekf, pt, sn = filters[0]
+            ekf, pt, sn, _ = filters[0]
             Lr = sorted(d.sensors[key])
             hx = eh.oracle_vals(d.sensors[key], Lr, eh.subs_map(d, pt))
             z = {r: F(h).limit_denominator(2 ** 20) + gen.dyadic(ctx.rng, -1, 1, 4) for r, h in zip(Lr, hx)}
             one_update_against_oracle(ctx, d, ekf, sn, key, pt, z, ekf.make_reading(key, **{r: float(v) for r, v in z.items()}), "first-filter-revisited")
         # (b) simulated measurement: z = h(true state), produced by the filter's own sensor model, applied at another estimate
-        ekf, pt, sensor = filters[-1]
+        ekf, pt, sensor, _ = filters[-1]
         truth = gen.gen_point(ctx.rng, d); truth["cal"] = pt["cal"]
         with fk.quiet():
             zobj = ekf.sensor_models[key].model(eh.state_obj(ekf, truth))
         Lr = sorted(d.sensors[key])
         z = {r: F(float(v)) for r, v in zip(Lr, np.asarray(zobj.data, dtype=float).reshape(-1))}
         one_update_against_oracle(ctx, d, ekf, sensor, key, pt, z, zobj, "reading-from-own-sensor-model")
+
+
+def far_from_a_bell_shaped_reading(ctx):
+    """a sensor with one reading that is a narrow bell exp(-(x-c)^2) and one ordinary reading, at an estimate 40 units away from the
+    bell's centre: the bell's prediction and Jacobian row underflow to 0 - perfectly good values - and the update goes through the
+    other reading"""
+    x, y, dt = sympy.symbols("bx by dt")
+    d = gen.Definition(dt, [x, y], [], [], {x: x + dt * y, y: y}, {"mix": {"beacon": sympy.exp(-(x - 5) ** 2), "sum": x + 2 * y}})
+    d.transcend = True
+    process, sensor = {}, {"mix": {"beacon": F(1, 4), "sum": F(1, 2)}}
+    pt = {"dt": F(1, 8), "cal": {}, "control": {}, "state": {"bx": F(45), "by": F(-3, 2)}}
+    try:
+        ekf = eh.compile_ekf(d, process, sensor, {}, ctx.rng, cse=True)
+    except Exception as e:
+        ctx.fail(f"compile-ekf-raises:{fk.exc_kind(e)}", repr(e)[:300], {"def": d.describe()}); return
+    z = {"beacon": F(1, 100), "sum": F(43)}
+    one_update_against_oracle(ctx, d, ekf, sensor, "mix", pt, z, ekf.make_reading("mix", **{r: float(v) for r, v in z.items()}), "far-from-bell")
 
 
 def run(ctx, focus="C05"):
@@ -201,6 +239,7 @@ def run(ctx, focus="C05"):
                     pending.append((idx, gx, res.covariance.data.copy(), S_rec.copy(), y_rec.copy(), case))
     if focus == "C05":
         later_filters_and_own_readings(ctx)
+        far_from_a_bell_shaped_reading(ctx)
     ans = drv.run()
     for idx, gx, gP, gS, gy, info in pending:
         a = ans[idx]
